@@ -11,7 +11,9 @@ use crate::master::error::TaskError;
 use crate::master::messages::{MasterMsg, Message};
 use crate::master::tasks::{AppTask, AssociationTask, NonReadTask, ReadTask, RequestWriter, Task};
 use crate::master::{Association, MasterChannelConfig};
-use crate::transport::{FragmentAddr, TransportReader, TransportResponse, TransportWriter};
+use crate::transport::{
+    FragmentAddr, LinkLayerMessageType, TransportReader, TransportResponse, TransportWriter,
+};
 use crate::util::buffer::Buffer;
 use crate::util::channel::Receiver;
 use crate::util::phys::PhysLayer;
@@ -808,7 +810,12 @@ impl MasterSession {
                         }
                         Some(TransportResponse::LinkLayerMessage(msg)) => {
                             self.notify_link_activity(msg.source);
-                            return Ok(());
+                            // only a LINK_STATUS from the outstation that was asked answers the request
+                            if msg.source == destination.link
+                                && msg.message == LinkLayerMessageType::LinkStatusResponse
+                            {
+                                return Ok(());
+                            }
                         }
                         Some(TransportResponse::Error(_)) => return Err(TaskError::UnexpectedResponseHeaders),
                         None => continue,
